@@ -389,8 +389,16 @@ func cmdCheck(args []string) int {
 		}
 		fmt.Printf("VIOLATION property=%s replay=%s obligation=%q status=%s%s%s\n", prop, rp.Path, o.Name, o.Result.Status, where, suffix)
 	}
-	for _, e := range engineErrors {
+	for i, e := range engineErrors {
+		// the contracts no longer apply to the code (function or variable gone, construct outside the supported subset,
+		// a post-condition's antecedent or a return site no longer reachable): the obligation "the contract applies and
+		// is not vacuous" fails.  Undecided rather than refuted, hence no failing input.
 		fmt.Fprintf(os.Stderr, "govc: ENGINE/CONTRACT ERROR: %s\n", e)
+		path := filepath.Join(replayDir, fmt.Sprintf("contract_does_not_apply_%d.json", i))
+		rb, _ := json.MarshalIndent(map[string]interface{}{"property": prop, "obligation": "contract applies to the current code and is not vacuous", "reason": e}, "", " ")
+		os.WriteFile(path, rb, 0644)
+		fmt.Printf("VIOLATION property=%s replay=%s obligation=%q status=contract-does-not-apply no-failing-input-found\n", prop, path, e)
+		violations++
 	}
 
 	// bounded stand-ins (labelled bounded, never counted as proved)
@@ -400,6 +408,9 @@ func cmdCheck(args []string) int {
 		engineErrors = append(engineErrors, be...)
 		for _, e := range be {
 			fmt.Fprintf(os.Stderr, "govc: ENGINE/CONTRACT ERROR: %s\n", e)
+			fmt.Printf("VIOLATION property=%s replay=%s obligation=%q status=bounded-harness-failed no-failing-input-found\n", prop, filepath.Join(replayDir, "bounded_harness_error.json"), e)
+			os.WriteFile(filepath.Join(replayDir, "bounded_harness_error.json"), []byte(fmt.Sprintf("%q", e)), 0644)
+			violations++
 		}
 	}
 
@@ -490,9 +501,6 @@ func cmdCheck(args []string) int {
 	}
 	fmt.Printf("govc: property %s tier %s: %d functions under contract, %d obligations, %d discharged, %d violations, %d known findings, %.1fs\n",
 		prop, *tier, len(fuc), len(all), discharged, violations, len(knownLines), wall)
-	if len(engineErrors) > 0 {
-		return 2
-	}
 	if violations > 0 {
 		return 1
 	}
